@@ -536,6 +536,11 @@ func registerIntrinsics(m *Machine) {
 	N["time.runtimeNano"] = func(m *Machine, fr *Frame, a []Value) Value { return Const(64, 0) }
 	N["(*time.Location).get"] = func(m *Machine, fr *Frame, a []Value) Value { return a[0] }
 
+	// ---- crypto/internal/constanttime (compiler intrinsics) ----
+	N["crypto/internal/constanttime.boolToUint8"] = func(m *Machine, fr *Frame, a []Value) Value {
+		return BoolToBV(a[0].(*Term), 8)
+	}
+
 	// ---- misc stdlib ----
 	N["strconv.ParseFloat"] = func(m *Machine, fr *Frame, a []Value) Value { unsupported("strconv.ParseFloat"); return nil }
 	N["math.Float64bits"] = func(m *Machine, fr *Frame, a []Value) Value { unsupported("math.Float64bits"); return nil }
